@@ -2,6 +2,7 @@ import WellenModel.Proofs.VcdStop
 import WellenModel.Proofs.TimeTable
 import WellenModel.Proofs.Mt
 import WellenModel.Props.C04
+import WellenModel.Props.C01
 import WellenModel.Proofs.SplitFree
 /-!
 # C03 — multi-threaded VCD loading equals single-threaded loading
@@ -20,6 +21,8 @@ trusted) and appended sequentially. What is proved here:
   (`C03_mt_loaded_signal`).
 * `C03_split_transparent` / `C03_mt_loaded_signal_single`: the `split` marks are transparent for the specification, so the
   loaded signals are what ONE thread recording the concatenated per-chunk operations would have produced.
+* `C03_mt_eq_st_given_handover`: the composition — if both loads succeed and the per-chunk operations are the whole body's
+  operations (`HandoverLexical`, the one assumption), both loads report the same change list for every signal.
 What is NOT proved is the purely lexical last step of `mt = st` for hand-over-safe bodies — that those per-chunk
 operations are the operations of the whole body; it is checked differentially against the Lean model of the chunked
 parser on every boundary alignment (see evidence). For bodies that are not hand-over safe the property is false for
@@ -225,5 +228,145 @@ theorem C03_mt_loaded_signal_single (c : Codec) (d : Decls) (rm : RealMap) (body
 example : Spec.run [.bitvec 1] [.time 0, .vcd 0 [49] none, .split, .time 5, .vcd 0 [48] none] =
     Spec.run [.bitvec 1] (Spec.dropSplits [.time 0, .vcd 0 [49] none, .split, .time 5, .vcd 0 [48] none]) ∧
     (Spec.run [.bitvec 1] [.time 0, .vcd 0 [49] none, .split, .time 5, .vcd 0 [48] none]).isSome = true := by decide
+
+/-! ### composition: multi-threaded = single-threaded, given a clean lexical hand-over -/
+
+theorem evOp_no_split (d : Decls) (rm : RealMap) (e : Ev) (o : Op) (h : evOp d rm e = some o) : o ≠ .split := by
+  cases e with
+  | time t => simp [evOp] at h; subst h; intro e; cases e
+  | value v i =>
+    simp only [evOp] at h
+    cases hr : resolveId d i with
+    | none => rw [hr] at h; cases h
+    | some n => rw [hr] at h; simp at h; subst h; intro e; cases e
+
+theorem opsOfEvs_no_split (d : Decls) (rm : RealMap) : ∀ (evs : List Ev) (ops : List Op),
+    opsOfEvs d rm evs = some ops → ∀ o ∈ ops, o ≠ .split := by
+  intro evs
+  induction evs with
+  | nil => intro ops h; simp [opsOfEvs] at h; subst h; intro o ho; cases ho
+  | cons e r ih =>
+    intro ops h
+    simp only [opsOfEvs] at h
+    cases he : evOp d rm e with
+    | none => rw [he] at h; cases h
+    | some o1 =>
+      rw [he] at h
+      cases hr : opsOfEvs d rm r with
+      | none => rw [hr] at h; cases h
+      | some os =>
+        rw [hr] at h
+        simp at h; subst h
+        intro o ho
+        rcases List.mem_cons.mp ho with rfl | ho
+        · exact evOp_no_split d rm e _ he
+        · exact ih os hr o ho
+
+theorem chunkOps_no_split (d : Decls) (rm : RealMap) (body : List Nat) (ch : Nat × Nat) (ops : List Op)
+    (h : chunkOps d rm body ch = some ops) : ∀ o ∈ ops, o ≠ .split := by
+  unfold chunkOps at h
+  split at h
+  · exact opsOfEvs_no_split d rm _ ops h
+  · cases h
+
+theorem dropSplits_id (ops : List Op) (h : ∀ o ∈ ops, o ≠ .split) : dropSplits ops = ops := by
+  unfold dropSplits
+  apply List.filter_eq_self.mpr
+  intro o ho
+  have := h o ho
+  cases o <;> simp_all
+
+theorem dropSplits_append (a b : List Op) : dropSplits (a ++ b) = dropSplits a ++ dropSplits b := by
+  simp [dropSplits]
+
+theorem dropSplits_joinSegs : ∀ (segs : List (List Op)), (∀ sg ∈ segs, ∀ o ∈ sg, o ≠ .split) →
+    dropSplits (joinSegs segs) = segs.flatten := by
+  intro segs
+  induction segs with
+  | nil => intro _; rfl
+  | cons sg r ih =>
+    intro h
+    simp only [joinSegs, List.flatten_cons]
+    have : dropSplits (Op.split :: sg) = dropSplits sg := rfl
+    rw [dropSplits_append, this, dropSplits_id sg (h sg (by simp)), ih (fun s hs => h s (List.mem_cons_of_mem _ hs))]
+
+theorem mapM_mem {α β : Type} (f : α → Option β) : ∀ (l : List α) (out : List β), l.mapM f = some out →
+    ∀ y ∈ out, ∃ x ∈ l, f x = some y := by
+  intro l
+  induction l with
+  | nil => intro out h y hy; simp at h; subst h; cases hy
+  | cons a r ih =>
+    intro out h y hy
+    simp only [List.mapM_cons] at h
+    cases ha : f a with
+    | none => rw [ha] at h; simp at h
+    | some b =>
+      rw [ha] at h
+      cases hr : r.mapM f with
+      | none => rw [hr] at h; simp at h
+      | some bs =>
+        rw [hr] at h
+        simp at h; subst h
+        rcases List.mem_cons.mp hy with rfl | hy
+        · exact ⟨a, by simp, ha⟩
+        · obtain ⟨x, hx, hfx⟩ := ih bs hr y hy
+          exact ⟨x, List.mem_cons_of_mem _ hx, hfx⟩
+
+/-- the lexical hand-over assumption: the operations the chunks record, one after the other, are the operations the
+single-threaded parser records for the whole body -/
+def HandoverLexical (d : Decls) (rm : RealMap) (body : List Nat) (threads minChunk : Nat) : Prop :=
+  ∀ segs evs ops, (determineChunks body.length threads minChunk).mapM (chunkOps d rm body) = some segs →
+    tokenSpec body = .ok evs → opsOfEvs d rm (implicitZero evs) = some ops → segs.flatten = ops
+
+/-- **`mt = st`, store level**: if both loads succeed, the lexical hand-over is clean (`HandoverLexical`: the per-chunk
+operations are the whole body's operations) and the chunked history is well-formed (every later chunk opens a new
+maximum: `Spec.run` denotes it), then both loads report, for every signal, the same change list — the one the
+specification denotes — and the time table the specification denotes. Everything below the token level is proved:
+encoders, blocks, roll-over, `Encoder::append`, de-duplication, loading. -/
+theorem C03_mt_eq_st_given_handover (c : Codec) (d : Decls) (rm : RealMap) (body : List Nat) (threads minChunk : Nat)
+    (encM encS : Enc)
+    (hM : readValues c d rm body (.multi threads minChunk) = .ok encM)
+    (hS : readValues c d rm body .single = .ok encS)
+    (hlex : HandoverLexical d rm body threads minChunk)
+    (i : Nat) (hbm : 1 ≤ c.blockMax) (hbmax : c.blockMax ≤ 2 ^ 28) (tpe : SigType) (hw : ∀ b, tpe = .bitvec b → 1 ≤ b)
+    (hti : d.sigTypes[i]? = some tpe)
+    (hsmallM : ∀ b ∈ (finish c encM).1.blocks, b.data.length < 2 ^ 36)
+    (hsmallS : ∀ b ∈ (finish c encS).1.blocks, b.data.length < 2 ^ 36) :
+    ∃ opsM, Spec.runSegs c d.sigTypes opsM = some encM ∧
+      ((∀ op ∈ opsM, ∀ j v r, op = .vcd j v (some r) → r.length = 8) →
+       ∀ tt sigs, Spec.run d.sigTypes opsM = some (tt, sigs) →
+        ∃ chg sM sS, sigs[i]? = some chg ∧
+          loadSignal (finish c encM).1 i tpe =
+            some { maxStates := sM, times := chg.map (·.1),
+                   entries := chg.map (fun x => (kindFor tpe hw).entry sM (encVK (kindFor tpe hw) x)) } ∧
+          loadSignal (finish c encS).1 i tpe =
+            some { maxStates := sS, times := chg.map (·.1),
+                   entries := chg.map (fun x => (kindFor tpe hw).entry sS (encVK (kindFor tpe hw) x)) }) := by
+  obtain ⟨seg0, rest, hmap, hrunM⟩ := C03_mt_load_is_store_run c d rm body threads minChunk encM hM
+  obtain ⟨evs, opsS, htok, hops, hrunS⟩ := C01_load_is_store_run c d rm body encS hS
+  have hflat : (seg0 :: rest).flatten = opsS := hlex _ evs opsS hmap htok hops
+  have hns : ∀ sg ∈ seg0 :: rest, ∀ o ∈ sg, o ≠ Op.split := by
+    intro sg hsg
+    obtain ⟨ch, _, hch⟩ := mapM_mem _ _ _ hmap sg hsg
+    exact chunkOps_no_split d rm body ch sg hch
+  have hdrop : dropSplits (seg0 ++ joinSegs rest) = opsS := by
+    rw [dropSplits_append, dropSplits_id seg0 (hns seg0 (by simp)),
+      dropSplits_joinSegs rest (fun s hs => hns s (List.mem_cons_of_mem _ hs)), ← hflat]
+    simp
+  refine ⟨seg0 ++ joinSegs rest, hrunM, ?_⟩
+  intro hreal tt sigs hden
+  have hdenS : Spec.run d.sigTypes opsS = some (tt, sigs) := by
+    rw [← hdrop]; exact C03_split_transparent _ _ _ hden
+  have hrealS : ∀ op ∈ opsS, ∀ j v r, op = .vcd j v (some r) → r.length = 8 := by
+    intro op hop
+    rw [← hdrop] at hop
+    exact hreal op (List.mem_filter.mp hop).1
+  obtain ⟨sM, chgM, h1, h2, _⟩ := C04_store_refines_spec_all c i hbm hbmax d.sigTypes tpe hw hti _ hreal encM hrunM tt sigs hden hsmallM
+  obtain ⟨sS, chgS, g1, g2, _⟩ := C04_store_refines_spec_all c i hbm hbmax d.sigTypes tpe hw hti _ hrealS encS
+    (C04_runSegs_single c d.sigTypes opsS encS hrunS) tt sigs hdenS hsmallS
+  rw [h1] at g1
+  cases g1
+  exact ⟨chgM, sM, sS, h1, h2, g2⟩
+
 
 end Wellen.VcdBody
